@@ -369,3 +369,35 @@ def t_fabric_event_order():
         c.prove('FabricEvent:order/earlier-first-unless-lower-priority-number', ab == (p1.e <= p2.e), tags=('C08',))
         c.prove('FabricEvent:order/later-first-only-with-smaller-priority-number', ba == (p2.e < p1.e), tags=('C08',))
     return Target('FabricEvent.order', run, ['activeobject.FabricEvent.__init__', 'activeobject.FabricEvent.__lt__'])
+
+
+def t_fabric_subscribed():
+    """subscribed(sig, kind[, queue]): somebody registered under that name / this very queue registered."""
+    def run(it):
+        c = it.c
+        self = make_fabric(it)
+        sig = symbolic_event(it)
+        name = sval(c.hget(sig, 'signal_name'))
+        lifo = c.choose(2, 'kind') == 1
+        kind = 'lifo' if lifo else 'fifo'
+        withq = c.choose(2, 'queue-given') == 1
+        queue = c.fresh_ref('client_queue', 'subq', distinct=False)
+        c.assume(queue.e != NONE)
+        d = c.hget(self, kind + '_subscriptions')
+        has, mp = c.hget(d, '$has'), c.hget(d, '$map')
+        lst = z3.Select(mp, name)
+        items, n = F.list_view(it, lst)
+        a, b = z3.Consts('a!id b!id', Ref)
+        c.assume(z3.ForAll([a, b], z3.Implies(B.id_of(a) == B.id_of(b), a == b),
+                           patterns=[z3.MultiPattern(B.id_of(a), B.id_of(b))]))
+        args = [sig, kind] + ([queue] if withq else [])
+        out = framed(it, 'subscribed:frame', [], lambda: run_body(it, method(it, self, 'subscribed'), args))
+        c.prove('fabric.subscribed:post/returns-normally', out.raised is None, tags=('C07', 'C06'))
+        if out.raised is not None:
+            return
+        want = z3.Select(has, name)
+        if withq:
+            want = z3.And(want, F.member(items, n, queue.e))
+        c.prove('fabric.subscribed:post/%s' % ('this-queue-registered' if withq else 'somebody-registered'),
+                c.to_bool(out.value) == want, tags=('C07', 'C06'))
+    return Target('fabric.subscribed', run, [AF + 'subscribed'])
